@@ -23,7 +23,7 @@ RULE = ("(sim) Hypothesis generates 2-4 component markets with unequal outstandi
         "the same weighted average of the components' fundamentals. Non-trivial = unequal shares and component prices that "
         "differ from each other at some time. (setup) an index over a repeated component, or over a component without "
         "outstandingShares, must be refused at setup. In two cases of five the index entry also carries a spot market's fundamental settings "
-        "(own keys or through 'extends' of a component), which an index must ignore; market names are prefixes / case variants of one another in three cases of four. "
+        "(own keys or through 'extends' of a component), which an index must ignore; market names are prefixes / case variants of one another in three cases of four; one case in four has an index of indices (IDX, with its own traded price and declared shares, is a component of IDX2). "
         "(regrow) registrations after setup through _add_market / _add_markets, some refused (duplicate, no shares): the component list equals the accepted registrations "
         "and get_index / compute_market_index / recorded and computed fundamental index equal the weighted average over exactly those, at every time of a short run; non-trivial = >=1 refused registration.")
 ASSUMPTIONS = ["a component's fundamental may be shocked later in the same step; the index fundamental is compared before that happens"]
@@ -51,6 +51,12 @@ def cases(draw, tier):
     elif extra == "extends":
         # the index entry reuses a spot template (tick size, fundamental settings, shares) through "extends"
         cfg["IDX"]["extends"] = draw(st.sampled_from(names))
+    if draw(st.integers(0, 3)) == 0:
+        # an index of indices: the first index (a market with its own traded price and declared shares) is a component of a second one
+        cfg["IDX"]["outstandingShares"] = draw(st.sampled_from([1, 50, 12345]))
+        cfg["IDX2"] = {"class": "IndexMarket", "tickSize": 1.0, "marketPrice": draw(st.sampled_from([100.0, 300.0])),
+                       "markets": draw(st.permutations(["IDX", draw(st.sampled_from(names))]))}
+        cfg["simulation"]["markets"].append("IDX2")
     spec = spec_strategy(offs=[-4, -2, -1, 0, 1, 2, 4], n_mi=nm + 1, own_cancel=False)
     cfg["A0"] = {"class": "VScriptedAgent", "numAgents": draw(st.integers(2, 5)), "markets": list(names) + ["IDX"], "assetVolume": 10, "cashAmount": 1000,
                  "scripts": draw(st.lists(program_strategy(spec, max_actions=5, decline_weight=0), min_size=1, max_size=3))}
@@ -90,36 +96,37 @@ def check_case(case):
     res = run_case(case, OPTS)
     A = Analysis(case, res)
     sim, cfg = A.sim, case["config"]
-    idx = sim.name2market["IDX"]
-    comps = [sim.name2market[n] for n in cfg["IDX"]["markets"]]
-    shares = [cfg[n]["outstandingShares"] for n in cfg["IDX"]["markets"]]
-    if [c.market_id for c in idx.get_components()] != [c.market_id for c in comps]:
-        raise Violation("C17.components", "get_components() differs from the configured component list")
-    ci = [sim.markets.index(c) for c in comps]
-    ii = sim.markets.index(idx)
-    seen_t = set()
     n_fund = 0
-    for k, kw in A.items:
-        if k == "hook" and kw["what"] == "market_before":
-            t = kw["times"][0]
-            if t in seen_t:
-                continue
-            seen_t.add(t)
-            want = weighted([kw["fund"][j] for j in ci], shares)
-            got = kw["fund"][ii]
-            n_fund += 1
-            if not math.isclose(got, want, rel_tol=1e-12):
-                raise Violation("C17.index_fundamental", f"after the clock advanced to {t}: index fundamental {got!r}, share-weighted average of component "
-                                                         f"fundamentals {want!r} (shares {shares})")
-    final = idx.get_time()
-    check_index_history(idx, comps, shares, final, "end of run")
-    if idx.get_fundamental_index(0) != idx.get_fundamental_price(0):
-        raise Violation("C17.fundamental_index_getter", "")
+    for iname in [n for n in ("IDX2", "IDX") if n in cfg]:
+        idx = sim.name2market[iname]
+        comps = [sim.name2market[n] for n in cfg[iname]["markets"]]
+        shares = [cfg[n]["outstandingShares"] for n in cfg[iname]["markets"]]
+        if [c.market_id for c in idx.get_components()] != [c.market_id for c in comps]:
+            raise Violation("C17.components", f"get_components() of {iname} differs from the configured component list {cfg[iname]['markets']}")
+        ci = [sim.markets.index(c) for c in comps]
+        ii = sim.markets.index(idx)
+        seen_t = set()
+        for k, kw in A.items:
+            if k == "hook" and kw["what"] == "market_before":
+                t = kw["times"][0]
+                if t in seen_t:
+                    continue
+                seen_t.add(t)
+                want = weighted([kw["fund"][j] for j in ci], shares)
+                got = kw["fund"][ii]
+                n_fund += 1
+                if not math.isclose(got, want, rel_tol=1e-12):
+                    raise Violation("C17.index_fundamental", f"after the clock advanced to {t}: fundamental of {iname} {got!r}, share-weighted average of component "
+                                                             f"fundamentals {want!r} (components {cfg[iname]['markets']}, shares {shares})")
+        final = idx.get_time()
+        check_index_history(idx, comps, shares, final, f"end of run, {iname}")
+        if idx.get_fundamental_index(0) != idx.get_fundamental_price(0):
+            raise Violation("C17.fundamental_index_getter", "")
     differ = any(len({c.get_market_price(t) for c in comps}) > 1 for t in range(final + 1))
     moved = any(c.get_market_price(final) != c.get_market_price(0) for c in comps)
     nt = len(set(shares)) > 1 and differ
     classes = (["unequal_shares"] if len(set(shares)) > 1 else []) + (["prices_differ"] if differ else []) + (["prices_moved"] if moved else []) + \
-              (["shock"] if "SH" in cfg else [])
+              (["shock"] if "SH" in cfg else []) + (["index_of_indices"] if "IDX2" in cfg else [])
     return CaseInfo(nontrivial=nt, classes=classes, steps=final,
                     sample={"components": cfg["IDX"]["markets"], "shares": shares, "final_prices": [c.get_market_price() for c in comps],
                             "index": idx.get_index(), "fundamental_checks": n_fund, "seed": case["seed"]})
